@@ -76,6 +76,9 @@ type c05Env struct {
 	ctx sdk.Context
 	k   *Keeper
 	cb  *c05Callback
+	// prefix of the assertion labels of c05CheckQueues: paths that exist only in the symbolic model
+	// (hash coincidences, see c05HashFault) report under their own labels
+	prefix string
 }
 
 // c05TextHandler is the x/tss content handler for TextSignatureOrder (x/tss/tss_handler.go cannot be
@@ -139,6 +142,11 @@ func c05SameDE(a, b types.DE) bool {
 type c05Queue struct {
 	head uint64
 	des  []types.DE
+	// injected store corruption (fault schedule only; never part of an invariant state):
+	// hole   - the entry at Head is missing although Head < Tail;
+	// faulty - the entry at Head is missing or holds a malformed pair, so it can never be assigned.
+	hole   bool
+	faulty bool
 }
 
 type c05State struct {
@@ -159,6 +167,12 @@ const c05IndexBound = uint64(1) << 62
 // "Tail-Head <= MaxDESize" is NOT assumed: MaxDESize is a governance parameter that may be lowered below
 // the current length of a queue; the steps must behave for such states too.
 func c05BuildQueues(e *c05Env, nAddr int, win []int, mk func() types.DE) *c05State {
+	return c05BuildQueuesOpt(e, nAddr, win, mk, true)
+}
+
+// c05BuildQueuesOpt: withNoRecord selects whether "empty queue without a record" is enumerated as a
+// shape of its own (it reads exactly like the record (0,0)).
+func c05BuildQueuesOpt(e *c05Env, nAddr int, win []int, mk func() types.DE, withNoRecord bool) *c05State {
 	ctx, k := e.ctx, e.k
 	st := &c05State{}
 
@@ -172,7 +186,7 @@ func c05BuildQueues(e *c05Env, nAddr int, win []int, mk func() types.DE) *c05Sta
 	for a := 0; a < nAddr; a++ {
 		n := vs.Pick("queue_len", win[a]+1)
 		q := c05Queue{}
-		if n == 0 && win[a] > 0 && vs.Bool("no_queue_record") {
+		if n == 0 && win[a] > 0 && withNoRecord && vs.Bool("no_queue_record") {
 			st.q = append(st.q, q)
 			continue
 		}
@@ -205,27 +219,34 @@ func c05CountDEs(e *c05Env, prefix []byte) int {
 // the invariant of the post-state (inductive step).
 func c05CheckQueues(e *c05Env, st *c05State) {
 	ctx, k := e.ctx, e.k
+	L := func(name string) string { return e.prefix + name }
 	total := 0
 	for a := range st.q {
 		q := st.q[a]
 		got := k.GetDEQueue(ctx, c05Addr(a))
 		n := uint64(len(q.des))
 		// (an address without a queue record reads as (0,0): its mirror has head 0)
-		vs.Assert("queue-head", got.Head == q.head)
-		vs.Assert("queue-tail", got.Tail == q.head+n)
-		vs.Assert("has-de-iff-nonempty", k.HasDE(ctx, c05Addr(a)) == (n > 0))
+		vs.Assert(L("queue-head"), got.Head == q.head)
+		vs.Assert(L("queue-tail"), got.Tail == q.head+n)
+		vs.Assert(L("has-de-iff-nonempty"), k.HasDE(ctx, c05Addr(a)) == (n > 0))
+		stored := len(q.des)
 		for i := range q.des {
 			de, err := k.GetDE(ctx, c05Addr(a), q.head+uint64(i))
-			vs.Assert("window-entry-exists", err == nil)
+			if i == 0 && q.hole {
+				vs.Assert(L("injected-hole-kept"), err != nil)
+				stored--
+				continue
+			}
+			vs.Assert(L("window-entry-exists"), err == nil)
 			if err == nil {
-				vs.Assert("window-entry-value", c05SameDE(de, q.des[i]))
+				vs.Assert(L("window-entry-value"), c05SameDE(de, q.des[i]))
 			}
 		}
-		vs.Assert("no-entry-outside-window", c05CountDEs(e, types.DEsStoreKey(c05Addr(a))) == len(q.des))
-		total += len(q.des)
+		vs.Assert(L("no-entry-outside-window"), c05CountDEs(e, types.DEsStoreKey(c05Addr(a))) == stored)
+		total += stored
 	}
-	vs.Assert("no-foreign-de-entries", c05CountDEs(e, types.DEStoreKeyPrefix) == total)
-	vs.Assert("max-de-size-unchanged", k.GetParams(ctx).MaxDESize == st.maxDE)
+	vs.Assert(L("no-foreign-de-entries"), c05CountDEs(e, types.DEStoreKeyPrefix) == total)
+	vs.Assert(L("max-de-size-unchanged"), k.GetParams(ctx).MaxDESize == st.maxDE)
 }
 
 // c05Wins returns the per-address window bounds: the target address gets `window`, the others `other`.
